@@ -1327,8 +1327,18 @@ class _Frame:
         f = self.I.repo.lookup_method(selfobj.cls, n.func.attr, start_after=cls)
         if f is None:
             raise self.bad(f"super().{n.func.attr} not found", n)
-        args = [self.ev(a) for a in n.args]
-        kwargs = {k.arg: self.ev(k.value) for k in n.keywords}
+        args = []
+        for a in n.args:
+            if isinstance(a, ast.Starred):
+                args.extend(self.ev(a.value))
+            else:
+                args.append(self.ev(a))
+        kwargs = {}
+        for k in n.keywords:
+            if k.arg is None:
+                kwargs.update(self.ev(k.value))
+            else:
+                kwargs[k.arg] = self.ev(k.value)
         if self.I.call_hook is not None:
             r = self.I.call_hook(f, args, kwargs)
             if r is not NotImplemented:
